@@ -105,3 +105,69 @@ def c01_concurrent(rng, sid, nscen):
         steps.append(BARRIER)
         out.append({"id": "%s-conc%d" % (sid, i), "cfg": {"mode": mode, "qq0": True}, "steps": steps})
     return out
+
+
+def c11_churn(rng, sid, nscen):
+    """share-group membership churn followed by numbered publications (each publication must reach exactly one
+    current member per matching group, plus every matching non-shared subscription)"""
+    out = []
+    groups = ["$share/g1/t", "$share/g2/t", "$share/g1/+", "$share/g1/t/#", "$share/g2/#", "$share/g1/$s/x"]
+    plain = ["t", "#", "t/#", "$s/x"]
+    topics = ["t", "t/u", "x", "$s/x"]
+    for i in range(nscen):
+        steps = []
+        vers = {1: 5, 2: 5, 3: rng.choice([4, 5])}
+        names = {1: "m1", 2: "m2", 3: "m3"}
+        for k in (1, 2, 3):
+            steps.append(connect(k, names[k], vers[k]))
+        steps.append(connect(9, "pub", rng.choice([4, 5])))
+        n = 0
+        online = {1, 2, 3}
+        nextk = 10
+        kmap = {1: 1, 2: 2, 3: 3}   # member -> current connection number
+        hasret = rng.random() < 0.4
+        if hasret:
+            # a retained message on a topic the share groups match: a shared subscribe must NOT replay it.  (Non-shared
+            # filters used in these scenarios do not match it: the replay rule itself belongs to C07.)
+            n += 1
+            steps.append(pub(9, "t/u/r", rng.randrange(3), "r%d" % n, retain=True))
+            plain = ["t", "x", "$s/x", "t/u"]
+            groups = groups + ["$share/g2/t/u/r", "$share/g1/t/+/r"]
+        for rnd in range(rng.randrange(2, 5)):
+            # membership changes
+            for _ in range(rng.randrange(1, 4)):
+                m = rng.choice([1, 2, 3])
+                if m not in online:
+                    if rng.random() < 0.7:
+                        steps.append(connect(nextk, names[m], vers[m], clean=rng.random() < 0.5, **({"expiry": 100} if vers[m] == 5 else {})))
+                        kmap[m] = nextk
+                        nextk += 1
+                        online.add(m)
+                    continue
+                r = rng.random()
+                if r < 0.55:
+                    v5 = vers[m] == 5
+                    pool = groups if v5 or True else plain
+                    f = rng.choice(groups + plain) if rng.random() < 0.8 else rng.choice(plain)
+                    s = {"n": f, "qos": rng.randrange(3)}
+                    if v5 and not f.startswith("$share/"):
+                        s["rap"] = rng.random() < 0.3
+                    steps.append(sub(kmap[m], [s], subid=rng.choice([0, 4]) if v5 else 0))
+                elif r < 0.8:
+                    steps.append({"op": "unsubscribe", "k": kmap[m], "names": [rng.choice(groups + plain)]})
+                elif r < 0.9:
+                    # leave by ending the session (clean session / expiry 0): DISCONNECT of a clean-start connection
+                    steps.append({"op": "disconnect", "k": kmap[m]})
+                    online.discard(m)
+                else:
+                    steps.append({"op": "abort", "k": kmap[m]})
+                    online.discard(m)
+            for _ in range(rng.randrange(2, 6)):
+                n += 1
+                if rng.random() < 0.8:
+                    steps.append(pub(9, rng.choice(topics), rng.randrange(3), "g%d" % n))
+                else:
+                    steps.append(api(rng.choice(topics), rng.randrange(3), "g%d" % n))
+            steps.append(BARRIER)
+        out.append({"id": "%s-churn%d" % (sid, i), "cfg": {"mode": rng.choice(["overlap", "onlyonce"]), "qq0": True}, "steps": steps})
+    return out
